@@ -1,0 +1,74 @@
+//! Verification hook (only with `--cfg avt_verif`): canonical text rendering of private state.
+//! Add-only; nothing here is compiled into a normal build.
+
+use crate::color::Color;
+use crate::line::Line;
+use crate::pen::{Intensity, Pen};
+use std::fmt::Write;
+
+pub(crate) fn color(c: &Option<Color>, out: &mut String) {
+    match c {
+        None => out.push('-'),
+        Some(Color::Indexed(n)) => {
+            let _ = write!(out, "i{}", n);
+        }
+        Some(Color::RGB(c)) => {
+            let _ = write!(out, "r{}.{}.{}", c.r, c.g, c.b);
+        }
+    }
+}
+
+pub(crate) fn pen(p: &Pen, out: &mut String) {
+    if p.foreground.is_none()
+        && p.background.is_none()
+        && p.intensity == Intensity::Normal
+        && p.attrs == 0
+    {
+        out.push('d');
+        return;
+    }
+
+    color(&p.foreground, out);
+    out.push('/');
+    color(&p.background, out);
+
+    let i = match p.intensity {
+        Intensity::Normal => 0,
+        Intensity::Bold => 1,
+        Intensity::Faint => 2,
+    };
+
+    let _ = write!(out, "/{}/{}", i, p.attrs);
+}
+
+/// One line as a single token: `<wrapped 0|1>|<cp>*<count>@<pen>,...`
+pub fn line(l: &Line, out: &mut String) {
+    out.push(if l.wrapped { '1' } else { '0' });
+    out.push('|');
+    let cells = &l.cells;
+    let mut i = 0;
+    let mut first = true;
+
+    while i < cells.len() {
+        let mut j = i + 1;
+
+        while j < cells.len() && cells[j] == cells[i] {
+            j += 1;
+        }
+
+        if !first {
+            out.push(',');
+        }
+
+        first = false;
+        let _ = write!(out, "{}*{}@", cells[i].char() as u32, j - i);
+        pen(cells[i].pen(), out);
+        i = j;
+    }
+}
+
+pub fn line_token(l: &Line) -> String {
+    let mut s = String::new();
+    line(l, &mut s);
+    s
+}
